@@ -130,6 +130,16 @@ def pytree_cases(rng, n_random, thorough):
         for tree in ({"t": "tuple", "xs": [arr_val(shape)]}, {"t": "tuple", "xs": [arr_val(shape), arr_val(shape)]},
                      {"t": "tuple", "xs": [arr_val(shape), arr_val([8, 8, 8])]}):
             cases.append(([], {"t": "pytree", "l": u, "s": "T"}, tree, {}))
+    # ... and when a LATER alternative accepts (the composite check passes): what the failed alternative bound is not among
+    # the bindings afterwards (expected bindings given explicitly)
+    for dims1, dims2, shape, expect in (("a 4", "r c", [3, 5], [["c", 5], ["r", 3]]), ("b *v 4", "r *v", [2, 6, 5], [["r", 2]]), ("a a", "r _", [3, 5], [["r", 3]])):
+        u = {"t": "union", "ts": [arr_type(dims1), arr_type(dims2)]}
+        for sname in (None, "T"):
+            for tree in ({"t": "tuple", "xs": [arr_val(shape)]}, {"t": "dict", "keys": ["v", "w"], "vals": [arr_val(shape), arr_val(shape)]}):
+                cases.append(([], {"t": "pytree", "l": u, "s": sname}, tree, {}, expect))
+    # a structure name bound earlier survives a failing / raising ARRAY check made in the same context
+    for bad_dims, bad_shape in (("n m", [3]), ("zz+1", [3]), ("a a", [2, 3])):
+        cases.append(([], arr_type(bad_dims), arr_val(bad_shape), {}, None, {"t": "pytree", "l": gen_prog.INT, "s": "T"}, {"t": "tuple", "xs": [gen_prog.ival(1), gen_prog.ival(2)]}))
     for _ in range(n_random):
         lt = gen_prog.rand_leaf_type(rng)
         alpha = {nm: rng.below(4) for nm in gen_dims.NAMES}
@@ -139,8 +149,10 @@ def pytree_cases(rng, n_random, thorough):
     return cases
 
 
-def case_prog(prior, lt, val, args):
+def case_prog(prior, lt, val, args, pre=None):
     body = [{"op": "check", "l": arr_type(d), "x": arr_val(s)} for d, s in prior]
+    if pre is not None:
+        body.append({"op": "check", "l": pre[0], "x": pre[1]})
     tgt = {"op": "check", "l": lt, "x": val}
     body += [P, tgt, P, tgt, P]
     if args:
@@ -176,8 +188,11 @@ def evaluate(out, prog, obs, tag, descr):
 
 def run_cases(out, drv, facts, cases, tag, rng):
     skel, wrap = extract.skel_request(facts)
-    for prior, lt, val, args in cases:
-        prog = case_prog(prior, lt, val, args)
+    for case in cases:
+        prior, lt, val, args = case[:4]
+        expect = case[4] if len(case) > 4 else None
+        pre = (case[5], case[6]) if len(case) > 6 else None
+        prog = case_prog(prior, lt, val, args, pre)
         w = drv.ask({"cmd": "prog", "prog": prog, "skel": skel, "wrap": wrap})
         got, resid = impl_prog.run_program(prog, "typeguard", rng)
         descr = f"type={json.dumps(lt)[:160]} value={json.dumps(val)[:160]}"
@@ -185,6 +200,16 @@ def run_cases(out, drv, facts, cases, tag, rng):
         out.case((json.dumps(prior), json.dumps(lt), json.dumps(val), json.dumps(args)), nontriv,
                  sample={"prior": prior, "type": lt, "value": val, "args": args, "observed": [o.get("v") for o in got if o["o"] == "verdict"]})
         evaluate(out, prog, got, tag, descr)
+        if expect is not None:
+            bs = [o["m"] for o in got if o["o"] == "bindings"]
+            vs = [o.get("v") for o in got if o["o"] == "verdict"]
+            if vs and vs[-1] == "T" and bs and bs[-1]["single"] != expect:
+                out.violation(f"{tag}:alternative-leak", f"a composite check passed through a later alternative, but the bindings afterwards are {bs[-1]['single']} instead of "
+                              f"{expect}: an alternative that failed left something behind ({descr})", {"program": prog, "bindings": bs[-1], "expected_single": expect})
+        if pre is not None:
+            bs = [o["m"] for o in got if o["o"] == "bindings"]
+            if bs and not all(b["struct"] == bs[0]["struct"] and b["struct"] for b in bs):
+                out.violation(f"{tag}:structure-lost", f"a failed / raising array check changed the structure bindings: {[b['struct'] for b in bs]} ({descr})", {"program": prog})
         if "skip" in w:
             out.count("unmodelled")
             continue
